@@ -92,6 +92,12 @@ def classify(r):
     if d.startswith("pointer relation: pointer outside object bounds"):
         # forming/comparing a pointer beyond one-past-the-end: no access (DESIGN 3.4)
         return "technical_ub"
+    if d.startswith("arithmetic overflow on unsigned to signed type conversion") or \
+            d.startswith("arithmetic overflow on signed to unsigned type conversion") or \
+            d.startswith("arithmetic overflow on signed type conversion") or d.startswith("arithmetic overflow on unsigned type conversion"):
+        # integer-to-integer narrowing / sign change: implementation-defined (modular on every target ninja supports), not UB;
+        # only float-to-integer conversions are undefined when out of range.  Appears only in runs that use --conversion-check.
+        return "technical_ub"
     f = sl.get("file", "")
     if f.startswith("<builtin-library") or f.startswith("<built-in"):
         return "internal"
